@@ -163,6 +163,7 @@ Case = _mk("Case", ["expr", "alts"])  # alts: list of (choices, stmts)
 Null = _mk("Null", [])
 Assert = _mk("Assert", ["cond", "report", "severity"])
 Return = _mk("Return", ["value"])
+Wait = _mk("Wait", [])  # plain `wait;` (suspend forever) only
 
 # concurrent
 ConcAssign = _mk("ConcAssign", ["label", "target", "value"])
@@ -659,7 +660,13 @@ class Parser:
                 v = self.expr()
             self.op(";")
             return Return(v, line=line)
-        if self.at_kw("for", "while", "loop", "wait", "next", "exit", "report"):
+        if self.at_kw("wait"):
+            self.p += 1
+            if not self.at_op(";"):
+                raise Unsupported("wait with condition / sensitivity / timeout")
+            self.op(";")
+            return Wait(line=line)
+        if self.at_kw("for", "while", "loop", "next", "exit", "report"):
             raise Unsupported(f"sequential statement {self.t.val}")
         if self.at("id") or self.at_op("("):
             if self.at_op("("):
